@@ -61,8 +61,10 @@ def run_sections(prop, tier, sd):
 def finding_matches(fd, prop, record):
     """record: a failed obligation or a bounded failure. A finding matches by obligation name and, when it carries one,
     by the signature (input class) -- so that a different violation of the same clause is still reported."""
-    if fd.get("property") != prop or fd.get("status", "open") != "open":
+    if fd.get("status", "open") not in ("open",):
         return False
+    if fd.get("property") != prop and not str(record.get("name", "")).startswith("bounded/"):
+        return False        # (a bounded input class is the same defect whichever property's check meets it, e.g. in degraded mode)
     m = fd.get("match", {})
     if "obligation" in m and not re.fullmatch(m["obligation"], record.get("name", "")):
         return False
@@ -131,6 +133,20 @@ def main(argv=None):
             b.setdefault("engine", sec.get("engine"))
             bounded.append(b)
 
+    # degradation instead of blindness (DESIGN 2.9): a function that left the verifier's subset is covered by a deeper run of its witness families
+    fams = sorted({f for ob in obligations if ob["status"] == C.UNREACHABLE for f in (ob.get("witness_families") or [])})
+    if fams:
+        argv = [C.PY_REPO, "-m", "replay.run", "--prop", prop, "--families", ",".join(fams), "--n", str(1500 * len(fams)), "--seed", str(sd + 1), "--tier", a.tier]
+        extra = C.run_section("witness", argv, 1500, C.repo_env())
+        extra["engine"] = "witness"
+        sections.append(extra)
+        for e in extra.get("errors", []):
+            errors.append("witness(degraded): %s" % e)
+        for b in extra.get("bounded", []):
+            b["engine"] = "witness"
+            b["name"] = b.get("name", "") + "+degraded"
+            bounded.append(b)
+
     n_total = len(obligations)
     by_status = {}
     for ob in obligations:
@@ -160,7 +176,9 @@ def main(argv=None):
                "how_to_replay": "./check %s --replay %s" % (prop, os.path.relpath(path, C.VERIF))}
         C.write_json(path, doc)
         tail = "" if failing_input else " no-failing-input-found"
-        lines.append("VIOLATION property=%s replay=%s%s" % (prop, path, tail))
+        ln = "VIOLATION property=%s replay=%s%s" % (prop, path, tail)
+        if ln not in lines:
+            lines.append(ln)
 
     # every listed open finding is replayed on every run: still failing -> KNOWN-FINDING line; repaired -> stale entry (no line)
     import subprocess
@@ -196,7 +214,7 @@ def main(argv=None):
             if key in seen:
                 continue
             seen.add(key)
-            rec = {"name": "bounded/%s/%s" % (b.get("name"), fl.get("class", "")), "class": fl.get("class"), "engine": b.get("engine"),
+            rec = {"name": "bounded/%s/%s" % (b.get("name", "").replace("+degraded", ""), fl.get("class", "")), "class": fl.get("class"), "engine": b.get("engine"),
                    "detail": "real code disagrees with the property oracle on a concrete input (bounded layer)"}
             report(rec, "bounded", fl)
     # de-duplicate KNOWN-FINDING lines
